@@ -610,6 +610,13 @@ pub fn encode_fixed_size_frame(
         ..(1usize << 31)
     )?;
 
+    // A frame holds 1..=MAX_BLOCK_SIZE samples: an empty buffer cannot be
+    // encoded, and `FrameBuf::resize` does not check its argument.
+    verify_range!(
+        "encode_fixed_size_frame (framebuf.filled_size)",
+        framebuf.filled_size(),
+        1..=(crate::constant::MAX_BLOCK_SIZE)
+    )?;
     framebuf.verify_samples(stream_info.bits_per_sample())?;
     // NOTE: From expected use cases, wrapping `stream_info` is not practical
     // since it is mutable everywhere. On the other hand, verifying it here is
